@@ -149,6 +149,7 @@ package bucketteer
 // only swaps elements of a and calls compare). Not `noframe`: that would make callers forget the written() counters.
 //@ func sortWithCompare
 //@   mode int
+//@   fnpure compare
 //@   requires compare != nil && len(a) <= 2305843009213693952
 //@   modifies a
 //@   use szRoot(len(a)) && unfold(lo(len(a), 1))
@@ -211,7 +212,7 @@ package bucketteer
 //@   mode int
 //@   requires out != nil && prefixToHashes != nil
 //@   requires forall q int :: 0 <= q && q < 65536 ==> len(prefixToHashes[q]) <= 4294967295
-//@   modifies all
+//@   modifies allof(prefixToHashes[0]), written(out)
 //@   ensures result2 != nil ==> len(result0) == 0 && result1 == 0
 //@   ensures result2 == nil ==> int(result1) == written(out) - old(written(out))
 //@   ensures result2 == nil ==> len(result0) == headerSize && 655388 <= headerSize && headerSize <= 785949
